@@ -231,6 +231,14 @@ func init() {
 			pf := &Profile{Kinds: allKinds, QKinds: allQKinds, MaxQueues: 2, Concs: []int{1, 2, 4, 8}, IDGenProb: 40, ErrsReader: 50, MinClients: 1, MaxClients: 3, MaxOps: scale(th, 8, 14),
 				Ops:     map[string]int{"add": 30, "addall": 10, "result": 25, "wait": 5, "gconsume": 10, "gwait": 4, "release": 4, "yield": 3},
 				MaxCtrl: 0, GatedProb: 25, Outs: []int{OutVal, OutVal, OutErr, OutPanicStr, OutPanicErr, OutPanicNil}, MaxBatch: 5}
+			// one case in six is a "failure storm": every job fails, several at once, nobody reads Errs()
+			storm := rapid.IntRange(0, 5).Draw(t, "storm") == 0
+			if storm {
+				pf.Concs = []int{2, 4, 8}
+				pf.Outs = []int{OutErr, OutPanicStr, OutErr, OutPanicErr}
+				pf.ErrsReader = 0
+				pf.GatedProb = 60
+			}
 			c := genProgram(t, "C07", pf, th)
 			for _, cl := range c.Clients {
 				for _, op := range cl {
